@@ -477,12 +477,12 @@ static int fast_abort ;
 void __asan_on_error (void) ;
 void
 __asan_on_error (void)
-{	if (fast_abort) _exit (77) ;
+{	if (fast_abort) SFH_EXIT (77) ;
 }
 
 static void
 on_alarm_c17 (int sig)
-{	(void) sig ; _exit (3) ; }
+{	(void) sig ; SFH_EXIT (3) ; }
 
 /* ---- facts about the fresh handle (what the model is told about it) ---------------------------- */
 static void
@@ -630,7 +630,7 @@ grid_run (const COMBO *c, FILE *in)
 					run_point (c, pts [k].cmd, pts [k].size, pts [k].kind) ;
 					}
 				fflush (stdout) ;
-				_exit (0) ;
+				SFH_EXIT (0) ;
 				}
 			waitpid (pid, &st, 0) ;
 			if (WIFEXITED (st) && WEXITSTATUS (st) == 0)
